@@ -16,6 +16,7 @@ package plan
 
 import (
 	"fmt"
+	"strings"
 
 	"github.com/XiaoMi/Gaea/mysql"
 	"github.com/XiaoMi/Gaea/parser/ast"
@@ -110,7 +111,40 @@ func handleDeleteTableRefs(p *DeletePlan) error {
 		return fmt.Errorf("does not support update multiple tables in sharding")
 	}
 
+	simplifySingleTargetDelete(p.stmt, p.db)
+
 	return handleJoin(p.TableAliasStmtInfo, join)
+}
+
+// simplifySingleTargetDelete turns DELETE tbl FROM tbl WHERE ... (the multiple-table syntax naming its only
+// table) into the equivalent single-table form DELETE FROM tbl WHERE ...: the target list holds plain table
+// names that cannot be decorated, so it would carry the logical database and table name to the backends.
+func simplifySingleTargetDelete(stmt *ast.DeleteStmt, sessionDB string) {
+	if !stmt.IsMultiTable || stmt.Tables == nil || len(stmt.Tables.Tables) != 1 {
+		return
+	}
+	join := stmt.TableRefs.TableRefs
+	source, ok := join.Left.(*ast.TableSource)
+	if !ok || join.Right != nil || source.AsName.L != "" {
+		return
+	}
+	table, ok := source.Source.(*ast.TableName)
+	if !ok {
+		return
+	}
+	dbOf := func(n *ast.TableName) string {
+		if n.Schema.L != "" {
+			return n.Schema.L
+		}
+		return strings.ToLower(sessionDB)
+	}
+	target := stmt.Tables.Tables[0]
+	if target.Name.L != table.Name.L || dbOf(target) != dbOf(table) {
+		return
+	}
+	stmt.IsMultiTable = false
+	stmt.BeforeFrom = false
+	stmt.Tables = nil
 }
 
 func handleDeleteWhere(p *DeletePlan) error {
